@@ -1,7 +1,7 @@
 """Random market-level histories on the real Market (code -> spec direction of the binding)."""
 import random
 
-from .book_session import PLURAL_ACCESSORS, SINGLE_ACCESSORS, BookSession
+from .book_session import PLURAL_ACCESSORS, SINGLE_ACCESSORS, BookSession, Broken
 
 EXACT_GRIDS = [(1.0, 2), (0.5, 2), (0.125, 4), (2.0, 4), (2.0 ** -6, 2), (1.0, 8)]
 DECIMAL_GRIDS = [(0.01, 2), (0.1, 2), (0.00001, 2), (0.3, 2), (10.0, 2)]
@@ -41,6 +41,18 @@ def one_history(seed, flavour="mixed", exact=True):
     cont = rng.random() < pr["p_cont"]
     ops = list(pr["w"].keys())
     wts = [pr["w"][k] for k in ops]
+    try:
+        _drive(s, rng, pr, ops, wts, cont, mid, den, exact, tick)
+        s.end()
+    except Broken:
+        pass
+    h = s.header()
+    h["flavour"] = flavour
+    h["seed"] = seed
+    return h
+
+
+def _drive(s, rng, pr, ops, wts, cont, mid, den, exact, tick):
     for _ in range(pr["nops"]):
         op = rng.choices(ops, wts)[0]
         follow = False
@@ -82,11 +94,6 @@ def one_history(seed, flavour="mixed", exact=True):
             s.probe(acc, t, plural_with_past=rng.random() < 0.5)
         if follow and cont and s.m.is_running:
             s.match()
-    s.end()
-    h = s.header()
-    h["flavour"] = flavour
-    h["seed"] = seed
-    return h
 
 
 def generate(n, seed, exact_share=0.8, flavour="mixed"):
